@@ -37,7 +37,7 @@ Print Assumptions C11_honest_view_change_is_counted.
 
 (* NEW_VIEW of an elected correct leader: adopted (the receiver moves to the view and PREPAREs the proposal) by every
    peer whose view is not higher and that has no proposal for the view; when no counted vote carries a lock the
-   receiver's consumer must accept the leader's fresh block and its context for the view must be live *)
+   receiver's consumer must accept the leader's fresh block and its context for the position it is in must be live *)
 Theorem C11_honest_new_view_is_adopted :
   forall cs cr wm shut xa v o wm' shut' xr, SInv cs xa -> vinv (tc_t xa) -> is_mnv o = true ->
   In o (tc_out (check_elected cs wm shut xa v)) -> ~ In o (tc_out xa) ->
@@ -45,7 +45,7 @@ Theorem C11_honest_new_view_is_adopted :
   c_inst cr = c_inst cs -> t_cm (tc_t xr) = t_cm (tc_t xa) -> t_h (tc_t xr) = t_h (tc_t xa) ->
   tc_v xr <= v -> get_pp (tc_t xr) v = None ->
   exists to ty i h vs s pp pps b, o = OSend to (MNV ty i h v vs s pp pps b) /\
-    (((forall vt, In vt vs -> v_proof vt = None) -> ctx_ok wm' shut' (h, v) = true /\ validProposal (c_me cr) h b (r_hash pp) = true) ->
+    (((forall vt, In vt vs -> v_proof vt = None) -> ctx_ok wm' shut' (t_h (tc_t xr), tc_v xr) = true /\ validProposal (c_me cr) h b (r_hash pp) = true) ->
      let x' := handle_nv cr wm' shut' xr ty i h v vs s pp pps b in tc_v x' = v /\ In (v, r_hash pp) (E x')).
 Proof. exact honest_new_view_is_adopted. Qed.
 Print Assumptions C11_honest_new_view_is_adopted.
